@@ -16,7 +16,9 @@ META = {
                    'the produced state is the stub answer (normalised). Normalisation: the state is divided by exactly TT.norm(p=normalize) of itself. '
                    'errors_*: numerator/denominator of every returned ratio are the norms of the dense defect / reference of that scheme. '
                    'adaptive_step_size: all accept/reject paths of the step-size controller (inner solves and norms are arbitrary positive reals), bounded '
-                   'to N loop iterations: accepted times strictly increase and never exceed time_end; inputs unchanged.',
+                   'to N loop iterations: accepted times strictly increase and never exceed time_end; inputs unchanged. implicit_inner: one step with the REAL '
+                   'alternating solver inside (solve / LU as fresh-symbol stubs): every micro system equals the Galerkin projection of the step equation '
+                   '(I - c h A) x = rhs onto the current frame and is exactly what the micro-solver is asked to solve (real and complex, ALS/MALS, both micro-solvers).',
     'bounds': {'quick': 'orders 2-3, mode size 2 (one size-1 mode), operator/state ranks {1,2}, real and complex, 1-3 steps, normalize 0/1/2, HOD orders 2 and 4, '
                         'adaptive controller: 3 loop iterations',
                'thorough': 'more shapes, 4 controller iterations'},
@@ -441,3 +443,87 @@ def adaptive(ctx, second, normalize, iters):
         return len(accepted)
     res = ctx.explore('adaptive_step_size', body, cap=400)
     ctx.check('several controller paths explored', len(res) >= (2 if ctx.sym else 1))
+
+
+# ------------------------------------------------------------------ implicit schemes with the real inner solver
+def _inner_grid(tier):
+    out = []
+    for s in SHAPES[:2] if tier == 'quick' else SHAPES:
+        for method in ('implicit_euler', 'trapezoidal_rule'):
+            for tt_solver in ('als', 'mals'):
+                for cplx in (False, True):
+                    for micro in ('solve', 'lu'):
+                        if tier == 'quick' and (micro == 'lu') != (cplx and tt_solver == 'mals' and len(s['dims']) == 2):
+                            continue
+                        out.append({'shape': s, 'method': method, 'tt_solver': tt_solver, 'cplx': cplx, 'micro': micro})
+    return out
+
+
+@scenario('C09', 'implicit_inner', _inner_grid)
+def implicit_inner(ctx, shape, method, tt_solver, cplx, micro):
+    """one step with the REAL alternating solver inside (LAPACK as fresh symbols): every micro system is the Galerkin projection of the scheme's
+    equation (I - c h A) x_new = rhs onto the current frame, and the micro-solver is asked for exactly that system"""
+    from .C07 import Recorder, frame, LinProxy, NpProxy
+    from .common import free_policy
+    TT, ode, sle = ctx.R.TT, ctx.R.ode, ctx.R.sle
+    if ctx.mode == 'tv':
+        from symtt.core import SkipTV
+        raise SkipTV()
+    d = len(shape['dims'])
+    sA, sx = _mk(shape)
+    Ad = _dense_op(ctx, 'A', sA, cplx)
+    I = D.eye(ctx, Ad.shape[0])
+    h = ctx.scalar('h0', lo=(0,))
+    A = TT(mk_cores(ctx, 'A', sA, cplx))
+    x0 = TT(mk_cores(ctx, 'x', sx, cplx))
+    g0 = TT(mk_cores(ctx, 'g', sx, cplx))
+    x0d = _dense_vec(ctx, x0)
+    if ctx.sym:
+        free_policy(ctx)
+    proxy = None
+    if not ctx.sym:
+        proxy = LinProxy(sle.lin)
+        sle.lin = proxy
+        real_np = sle.np
+        sle.np = NpProxy(real_np, proxy)
+    width = 1 if tt_solver == 'als' else 2
+    try:
+        with Recorder(sle, '__update_core_' + tt_solver) as rec:
+            sol = getattr(ode, method)(A, x0, g0, [h], repeats=1, tt_solver=tt_solver, threshold=0, max_rank=np.inf, micro_solver=micro, normalize=0,
+                                       progress=False)
+    finally:
+        if proxy is not None:
+            sle.lin = proxy._real
+            sle.np = real_np
+    cfac = ctx.const_frac(1) if method == 'implicit_euler' else ctx.const_frac(1, 2)
+    M = D.sub(ctx, I, D.scale(ctx, cfac * h, Ad))
+    rhs = x0d if method == 'implicit_euler' else D.matmul(ctx, D.add(ctx, I, D.scale(ctx, cfac * h, Ad)), x0d)
+    ctx.check('%s/%s: at least one micro step per core' % (method, tt_solver), len(rec.calls) >= d - width + 1)
+    glabel = '%s/%s/%s: every micro system is the Galerkin projection of the step equation and is what the micro-solver solves' % (method, tt_solver, micro)
+    if ctx.sym:
+        from symtt import state as _st
+        solves = [c for c in _st.S.stub_log if c.kind == 'solve']
+        with ctx.group(glabel):
+            ctx.check('one linear solve per micro step', len(solves) == len(rec.calls))
+            for n, c in enumerate(rec.calls):
+                P = frame(ctx, c['cores'], c['i'], width, c['ranks'], shape['dims'])
+                PH = D.conj_t(ctx, P)
+                tag = 'micro step %d (core %d, %s)' % (n, c['i'], c['direction'])
+                ctx.eq(tag + ': micro matrix == P^H (I - c h A) P', c['op'], D.matmul(ctx, PH, D.matmul(ctx, M, P)))
+                ctx.eq(tag + ': micro right-hand side == P^H rhs', c['rhs'], D.matmul(ctx, PH, rhs))
+                if n < len(solves):
+                    ctx.eq(tag + ': matrix handed to the solver == micro matrix', solves[n].A, c['op'])
+                    ctx.eq(tag + ': right-hand side handed to the solver', solves[n].b.reshape(-1), c['rhs'].reshape(-1))
+    else:
+        Mn, rn = np.asarray(M, dtype=complex), np.asarray(rhs, dtype=complex).reshape(-1)
+        worst = 0.0
+        ok = len(proxy.solved) == len(rec.calls)
+        for c, (a0, b0, xs) in zip(rec.calls, proxy.solved):
+            cores = [np.asarray(k_, dtype=complex) for k_ in c['cores']]
+            P = np.asarray(frame(ctx, cores, c['i'], width, c['ranks'], shape['dims']), dtype=complex)
+            res = np.linalg.norm(P.conj().T @ Mn @ P @ np.asarray(xs, dtype=complex).reshape(-1) - P.conj().T @ rn)
+            worst = max(worst, res / (1e-300 + np.linalg.norm(rn)))
+        ctx.check(glabel, bool(ok and worst < 1e-7), detail='worst relative Galerkin residual %.2e' % worst)
+    ctx.check('%s: two states' % method, len(sol) == 2 and sol[0] is x0)
+    meta_ok(ctx, method + ' new state', sol[1])
+    ctx.eq('%s: initial value unchanged' % method, _dense_vec(ctx, x0), x0d)
